@@ -4,6 +4,11 @@ import json, subprocess
 
 # id: (level, engine, technique, level text, level note, design ref)
 CHECKS = {
+ "C16": ("model_checking", "space",
+         "deviation-bounded exhaustive enumeration of renderings (all with <= 2, thorough <= 3, deviating sites) and complete per-type spelling alphabets, real code vs. canonical rendering / reference parsers",
+         "For 11 structured definitions (single steps, pipelines, directional steps, macro invocations with arguments, indexed keys, stack steps, adaptor macros) every rendering with at most 2 (thorough: 3) deviating sites out of whitespace kind / line end / continuation colon / adversarial comments / blank lines / empty steps / modifier position / subscript spelling / </> sugar, plus uniform renderings, must give the same fingerprint, the same typed parameters and the same token-sorted step list as the canonical rendering, and normalize must be idempotent on each; a harness-registered operator with a required and an optional key per OpParameter variant is instantiated with every spelling of per-type alphabets (488 real spellings incl. sexagesimal x hemisphere x sign, integers at the type limits, series, text lists, multi-byte) and compared with reference parsers, incl. defaults, required keys, last-wins and unknown keys.",
+         "Trusts the renderer (only documented-insignificant layout is varied; continuation colons at column 0) and the reference parsers (Rust integer grammar; sign*(d+m/60+s/3600)). Spellings whose meaning is not specified (minus sign plus hemisphere, negative minutes, overflowing exponents) are only required not to panic.",
+         "DESIGN.md §3 C16"),
  "C19": ("exploration", "space",
          "complete enumeration of container type x element index x special-value alphabet, and of fixed angle lattices, against element-wise definitions",
          "Every tuple type (Coor2D/3D/4D/32, (f64,f64)) x every element index 0..dim+2 x 13 special values (NaN, infinities, signed zeros, subnormal, huge) for every accessor, bulk accessor, update length and arithmetic operator (all value pairs); every set container (arrays, slices, vectors of all four tuple types, the height/epoch adapters with 12 fixed-value combinations, a user container using only the trait defaults) x all 13^4 written tuples; angle encodings on every 0.5 arcsec in [-2,2] deg, every arc-minute in [-720,720] deg (thorough: 0.05 arcsec / every arc-second), carry neighbourhoods and the full (d,m,s) integer lattice incl. d = 0.",
@@ -67,7 +72,7 @@ def main():
             "add_only": True,
         },
         "engines": [
-            {"name": "space", "path": "/verif/mc/src/engine.rs", "kind_free_text": "exhaustive mixed-radix product enumeration on 16 threads (par_range/decode)", "serves_properties": ["C11", "C19"]},
+            {"name": "space", "path": "/verif/mc/src/engine.rs", "kind_free_text": "exhaustive mixed-radix product enumeration on 16 threads (par_range/decode)", "serves_properties": ["C11", "C16", "C19"]},
             {"name": "explore", "path": "/verif/mc/src/props", "kind_free_text": "explicit-state / program-tree exploration of the real API against reference models written in Rust", "serves_properties": ["C03", "C04", "C12"]},
             {"name": "workers", "path": "/verif/mc/src/engine.rs", "kind_free_text": "worker subprocesses (2 MiB stack, 4 GiB address space, watchdog) for hang / overflow / abort detection", "serves_properties": ["C04"]},
         ],
